@@ -1,1 +1,4 @@
-//! verification harness module included into `statime-algo/src/lib.rs` (guarded hook).
+//! verification harness dispatcher for hook `verif_root` of crate `statime_algo` (guarded hook).
+//! Add one line per property cluster:   #[path = "root_<cluster>.rs"] mod <cluster>;
+//! Each sub-module has its own `#[test] fn entry()` selected by VERIF_STREAM and reaches the private
+//! items of the module the hook sits in through `super::super::*`.
